@@ -237,9 +237,10 @@ func (s *Scheduler) block(why string, cond func() bool) {
 
 // join waits until all other threads have finished (used by verifJoin).
 func (s *Scheduler) joinAll() {
+	me := s.cur
 	s.block("join", func() bool {
 		for _, t := range s.threads {
-			if t != s.cur && !t.done {
+			if t != me && !t.done {
 				return false
 			}
 		}
